@@ -2,7 +2,7 @@ from pyvc.cbase import Registry
 
 
 def build_registry():
-    from . import externs, expect, spawnbase, screen, ansi, utils, transports, lifecycle, readpath, pxssh, run
+    from . import externs, expect, spawnbase, screen, ansi, utils, transports, lifecycle, readpath, pxssh, run, replwrap
     reg = Registry()
     externs.register(reg)
     spawnbase.register(reg)
@@ -15,4 +15,5 @@ def build_registry():
     readpath.register(reg)
     pxssh.register(reg)
     run.register(reg)
+    replwrap.register(reg)
     return reg
